@@ -36,6 +36,11 @@ def gen_world(r, res=None, small=False):
     wide = (not small) and r.random() < 0.1
     nl = (r.choice([1, 1, 2, 2, 3]) if not wide else r.choice([4, 5])) if not small else 1
     names = r.sample(LOOM_NAMES, nl)
+    if nl >= 2 and r.random() < 0.3:
+        # several looms of ONE host (names equal up to the first dot): their order is decided by the full name
+        fam = r.choice([["node1.0", "node1.1", "node1.2", "node1.10"], ["host.3", "host.12", "host.1", "host"],
+                        ["a.b.c", "a.b", "a.c", "a.b.d"]])
+        names = r.sample(fam, min(nl, len(fam))) + names[len(fam):]
     rank_mode = r.choice(["none", "none", "all", "all", "some-looms", "ties"])
     if nl == 1 and rank_mode == "some-looms":
         rank_mode = "all"
